@@ -188,12 +188,27 @@ theorem apply_lastBatch (s : Iter) (k : Kind) (pg : List Nat) (hlb : s.lastBatch
 /-- One request against the history server, issued with an exhausted buffer and no last batch yet:
 either nothing remained (and `Next` reports the end), or the new state has the page buffered and the
 same pending items. -/
+theorem filter_notEmpty (hist : List Nat) (E : List Nat) (hE : ∀ x ∈ hist, x ∉ E) (l : List Nat)
+    (hl : ∀ x ∈ l, x ∈ hist) : l.filter (fun x => !E.contains x) = l := by
+  apply List.filter_eq_self.mpr
+  intro x hx
+  have := hE x (hl x hx)
+  simp [this]
+
+theorem below_subset (hist : List Nat) (off : Nat) : ∀ x ∈ below hist off, x ∈ hist := by
+  intro x hx
+  unfold below at hx
+  split at hx
+  · exact hx
+  · exact (List.mem_filter.mp hx).1
+
 theorem apply_hist (hist : List Nat) (hd : Desc hist) (hp : ∀ x ∈ hist, 0 < x) (ks : List Kind) (i : Nat)
-    (s : Iter) (hL : 0 < s.limit) (h : bufHas s = false) (hlb : s.lastBatch = false) :
+    (s : Iter) (hE : ∀ x ∈ hist, x ∉ s.emptyIds)
+    (hL : 0 < s.limit) (h : bufHas s = false) (hlb : s.lastBatch = false) :
     let a := histServer hist ks i s.offsetID s.limit
     let s' := s.apply a.1 a.2
     (pending hist s = [] ∧ bufHas s' = false) ∨
-    (bufHas s' = true ∧ pending hist s' = pending hist s ∧ s'.limit = s.limit ∧
+    (bufHas s' = true ∧ pending hist s' = pending hist s ∧ s'.limit = s.limit ∧ s'.emptyIds = s.emptyIds ∧
       0 < (below hist s.offsetID).length ∧
       (s'.lastBatch = false → (below hist s'.offsetID).length + s.limit = (below hist s.offsetID).length)) := by
   have hb : ¬ s.pos < s.buf.length := by simpa [bufHas_eq] using h
@@ -217,17 +232,22 @@ theorem apply_hist (hist : List Nat) (hd : Desc hist) (hp : ∀ x ∈ hist, 0 < 
     exact ⟨by rw [hpend, hrem], by simp [bufHas_eq, hb]⟩
   | some m =>
     right
+    have hfil : ((below hist s.offsetID).take s.limit).filter (fun x => !s.emptyIds.contains x) =
+        (below hist s.offsetID).take s.limit :=
+      filter_notEmpty hist s.emptyIds hE _ (fun x hx => below_subset hist _ x (List.mem_of_mem_take hx))
     have happ : s.apply k ((below hist s.offsetID).take s.limit) =
         { s with lastBatch := lbRule (lbCode k) ((below hist s.offsetID).take s.limit).length s.limit,
                  offsetID := m, buf := (below hist s.offsetID).take s.limit, pos := 0 } := by
       simp [Iter.apply, hlb, hsorted, hlast]
+      intro a ha
+      exact hE a (below_subset hist _ a (List.mem_of_mem_take ha))
     rw [happ]
     have hne : (below hist s.offsetID).take s.limit ≠ [] := by
       intro h; rw [h] at hlast; simp at hlast
     have hlenpos := List.length_pos_iff.mpr hne
     have hrpos : 0 < (below hist s.offsetID).length := by
       rw [List.length_take] at hlenpos; omega
-    refine ⟨by simpa [bufHas_eq] using hlenpos, ?_, rfl, hrpos, ?_⟩
+    refine ⟨by simpa [bufHas_eq] using hlenpos, ?_, rfl, rfl, hrpos, ?_⟩
     · rw [hpend]
       simp only [pending, List.drop_zero]
       cases hlbv : lbRule (lbCode k) ((below hist s.offsetID).take s.limit).length s.limit with
@@ -246,19 +266,19 @@ theorem apply_hist (hist : List Nat) (hd : Desc hist) (hp : ∀ x ∈ hist, 0 < 
       omega
 
 theorem runS_exact (hist : List Nat) (hd : Desc hist) (hp : ∀ x ∈ hist, 0 < x) (ks : List Kind) :
-    ∀ (fuel i : Nat) (s : Iter), 0 < s.limit → (pending hist s).length < fuel →
+    ∀ (fuel i : Nat) (s : Iter), (∀ x ∈ hist, x ∉ s.emptyIds) → 0 < s.limit → (pending hist s).length < fuel →
       (runS (histServer hist ks) fuel i s).yields = pending hist s ∧
       (runS (histServer hist ks) fuel i s).done = true := by
   intro fuel
   induction fuel with
-  | zero => intro i s _ h; omega
+  | zero => intro i s _ _ h; omega
   | succ fuel ih =>
-    intro i s hL hfuel
+    intro i s hE hL hfuel
     cases hbh : bufHas s with
     | true =>
       rw [runS_buf _ _ _ _ hbh]
       have hc := pending_consume hist s hbh
-      have := ih i s.adv hL (by rw [hc] at hfuel; simp at hfuel; omega)
+      have := ih i s.adv hE hL (by rw [hc] at hfuel; simp at hfuel; omega)
       rw [hc]
       exact ⟨by simp [this.1], this.2⟩
     | false =>
@@ -267,13 +287,14 @@ theorem runS_exact (hist : List Nat) (hd : Desc hist) (hp : ∀ x ∈ hist, 0 < 
         rw [runS_stop _ _ _ _ hbh (by rw [apply_lastBatch _ _ _ hlb]; exact hbh)]
         simp [pending_lastBatch hist s hbh hlb]
       | false =>
-        rcases apply_hist hist hd hp ks i s hL hbh hlb with ⟨hp0, hstop⟩ | ⟨hgo, hpe, hlim, _, _⟩
+        rcases apply_hist hist hd hp ks i s hE hL hbh hlb with ⟨hp0, hstop⟩ | ⟨hgo, hpe, hlim, hem, _, _⟩
         · rw [runS_stop _ _ _ _ hbh hstop]
           simp [hp0]
         · rw [runS_go _ _ _ _ hbh hgo]
           have hc := pending_consume hist _ hgo
           have := ih (i + 1) (s.apply (histServer hist ks i s.offsetID s.limit).1
-              (histServer hist ks i s.offsetID s.limit).2).adv (by simpa [Iter.adv, hlim] using hL)
+              (histServer hist ks i s.offsetID s.limit).2).adv (by simpa [Iter.adv, hem] using hE)
+            (by simpa [Iter.adv, hlim] using hL)
             (by rw [← hpe, hc] at hfuel; simp at hfuel; omega)
           rw [← hpe, hc]
           exact ⟨by simp [this.1], this.2⟩
@@ -299,17 +320,17 @@ def reqBound (hist : List Nat) (s : Iter) : Nat :=
 theorem reqBound_adv (hist : List Nat) (s : Iter) : reqBound hist s.adv = reqBound hist s := rfl
 
 theorem runS_reqs (hist : List Nat) (hd : Desc hist) (hp : ∀ x ∈ hist, 0 < x) (ks : List Kind) :
-    ∀ (fuel i : Nat) (s : Iter), 0 < s.limit →
+    ∀ (fuel i : Nat) (s : Iter), (∀ x ∈ hist, x ∉ s.emptyIds) → 0 < s.limit →
       (runS (histServer hist ks) fuel i s).reqs.length ≤ reqBound hist s := by
   intro fuel
   induction fuel with
-  | zero => intro i s _; simp [runS]
+  | zero => intro i s _ _; simp [runS]
   | succ fuel ih =>
-    intro i s hL
+    intro i s hE hL
     cases hbh : bufHas s with
     | true =>
       rw [runS_buf _ _ _ _ hbh]
-      have := ih i s.adv hL
+      have := ih i s.adv hE hL
       rw [reqBound_adv] at this
       exact this
     | false =>
@@ -318,12 +339,13 @@ theorem runS_reqs (hist : List Nat) (hd : Desc hist) (hp : ∀ x ∈ hist, 0 < x
         rw [runS_stop _ _ _ _ hbh (by rw [apply_lastBatch _ _ _ hlb]; exact hbh)]
         simp [reqBound, hlb]
       | false =>
-        rcases apply_hist hist hd hp ks i s hL hbh hlb with ⟨_, hstop⟩ | ⟨hgo, _, hlim, hrpos, hnext⟩
+        rcases apply_hist hist hd hp ks i s hE hL hbh hlb with ⟨_, hstop⟩ | ⟨hgo, _, hlim, hem, hrpos, hnext⟩
         · rw [runS_stop _ _ _ _ hbh hstop]
           simp [reqBound, hlb]
         · rw [runS_go _ _ _ _ hbh hgo]
           have := ih (i + 1) (s.apply (histServer hist ks i s.offsetID s.limit).1
-              (histServer hist ks i s.offsetID s.limit).2).adv (by simpa [Iter.adv, hlim] using hL)
+              (histServer hist ks i s.offsetID s.limit).2).adv (by simpa [Iter.adv, hem] using hE)
+            (by simpa [Iter.adv, hlim] using hL)
           rw [reqBound_adv] at this
           simp only [List.length_cons]
           have hcp := ceilDiv_pos (below hist s.offsetID).length s.limit hL hrpos
